@@ -167,4 +167,24 @@ def oracle(ctx):
                     fails.append(f'{svc} must still be enabled')
         for f in fails:
             res.oracle_failures.append(dict(op='fault-run', input=c, impl_output=dict(exit=o['exit'], stderr=e2e.error_lines(o['stderr'])[:4], out=sorted(o['snap'])), oracle_expectation=f))
+    # many failures in one run: the exit status must stay non-zero whatever their number is (an exit status is one byte)
+    for n_write, n_conv in ((256, 0), (1, 255), (512, 0)) if ctx.thorough else ((256, 0), (1, 255)):
+        res.oracle_evals += 1
+        base = e2e.fresh_dir()
+        os.makedirs(os.path.join(base, 'src'))
+        out = os.path.join(base, 'out')
+        os.makedirs(out)
+        for i in range(n_write):
+            with open(os.path.join(base, 'src', f'w{i}.container'), 'w') as f:
+                f.write('[Container]\nImage=localhost/i\n')
+            os.makedirs(os.path.join(out, f'w{i}.service'))      # a directory in the way: the write fails
+        for i in range(n_conv):
+            with open(os.path.join(base, 'src', f'c{i}.container'), 'w') as f:
+                f.write('[Container]\nImage=localhost/i\nBogusKey=1\n')
+        rc, so, se = e2e.run_binary(['--no-kmsg-log', out], os.path.join(base, 'src'), timeout=120)
+        shutil.rmtree(base, ignore_errors=True)
+        if rc == 0 or rc not in range(1, 256):
+            res.oracle_failures.append(dict(op='fault-run', input=dict(failing_writes=n_write, conversion_errors=n_conv),
+                                            impl_output=dict(exit=rc, errors_logged=len(e2e.error_lines(se))),
+                                            oracle_expectation=f'{n_write} service files cannot be written (and {n_conv} units fail to convert): the exit status must be non-zero'))
     ctx.log(f'oracle: {res.oracle_evals} fault-injection runs, {len(res.oracle_failures)} failures')
